@@ -262,10 +262,17 @@ func (h *H) genProtoTag(ft *Ty, used map[int]bool, pos int) string {
 	case "f64":
 		wire = "fixed64"
 	case "i32", "int", "i64":
-		if h.Intn(3) == 0 {
+		switch h.Intn(4) {
+		case 0:
 			wire = "zigzag64"
 			if b.K == "i32" {
 				wire = "zigzag32"
+			}
+		case 1: // sfixed32 / sfixed64
+			if b.K == "i32" {
+				wire = "fixed32"
+			} else if b.K == "i64" {
+				wire = "fixed64"
 			}
 		}
 	case "u32":
